@@ -39,6 +39,8 @@ type Program struct {
 	// field owner index for package dbft structs
 	FieldOwner map[*types.Var]string // field -> owner struct name
 	Structs    map[string]*types.Struct
+	FieldAlias map[*types.Var]string // private field -> role name (roles_fields.go)
+	TypeAlias  map[string]string     // private type name -> role name
 
 	// callers: callee -> list of call sites (filled by callgraph.go)
 	nFuncs int
@@ -161,6 +163,7 @@ func loadProgram(dir string, tags string, env []string) (*Program, error) {
 		}
 	}
 	prog.nFuncs = len(prog.Funcs)
+	prog.deriveAliases()
 	return prog, nil
 }
 
